@@ -36,7 +36,11 @@ prop = Prop(
         "parent of T on residual ports; arrival = a drawn total order of all tokens and terminations (a port's "
         "termination after its own tokens). Non-trivial = >= 2 leaf ports, >= 1 expected combination and a measured "
         "arrival order of the data tokens that is not the canonical port-by-port order; distinct by the whole case. "
-        "Enumerated: every permutation of every stream assignment from the small universe in the module."
+        "Engine tier: list tokens through real ScatterSteps into the combinator step under a drawn chaos schedule, "
+        "non-trivial = >= 2 leaf ports and >= 2 expected combinations. "
+        "Enumerated: every arrival permutation of every assignment of streams (<= 3 tokens per port, <= 3 ports, tags from a "
+        "universe containing 0.1 / 0.10 siblings and 3 depths) to Dot(2..3), Cart(2..3), Dot[Cart(a,b),r], Dot[Dot(a,b),r] "
+        "with at most 5 (quick) / 7 (thorough) tokens in total."
     ),
     level_text=(
         "Random search over trees, streams and arrival orders, exhaustive over all permutations inside the small universe; "
@@ -331,7 +335,7 @@ def classify(rec, case, exp, orders) -> None:
             for p in sub[1:]:
                 for t in streams[p]:
                     gs[(p, ".".join(comps(t)[:-1]))] += 1
-            for g in {g for _, g in gs}:
+            for g in sorted({g for _, g in gs}):
                 if all(gs[(p, g)] >= 2 for p in sub[1:]):
                     rec.label("cartesian>=2x2")
                     break
@@ -410,27 +414,6 @@ async def check_direct(case, rec):
 # engine tier: real scatter steps upstream, StreamFlowExecutor, chaos schedule
 
 
-def deterministic_task_sets() -> None:
-    """``CombinatorStep.run`` iterates over the *set* of finished tasks returned by ``asyncio.wait``; the
-    iteration order of a set of tasks follows their addresses, i.e. it differs between two executions of
-    the same case. Tasks created on this loop from now on hash by creation number, so the order in which
-    simultaneously finished tasks are visited is a function of the case (any such order is one a real
-    run can exhibit; the ready queue is untouched)."""
-    import asyncio
-
-    counter = itertools.count()
-
-    class DetTask(asyncio.Task):
-        def __init__(self, coro, **kw):
-            self._vf_hash = next(counter)  # before __init__: registering the task already hashes it
-            super().__init__(coro, **kw)
-
-        def __hash__(self):
-            return self._vf_hash
-
-    asyncio.get_running_loop().set_task_factory(lambda loop, coro, **kw: DetTask(coro, loop=loop, **kw))
-
-
 @st.composite
 def engine_case(draw):
     shape = draw(st.sampled_from(["dot-scatter", "dot2", "cart", "dot-cart", "dot-dot"]))
@@ -447,7 +430,7 @@ def engine_case(draw):
     return {"shape": shape, "tree": tree, "groups": groups, "lens": lens, "residual": res, "schedule": draw(st.lists(st.integers(0, 4), max_size=12))}
 
 
-@prop.given("engine", engine_case(), quick=700, thorough=5000)
+@prop.given("engine", engine_case(), quick=700, thorough=5000, max_shards=4)
 async def check_engine(case, rec):
     from streamflow.core.workflow import Token, Workflow
     from streamflow.workflow.executor import StreamFlowExecutor
@@ -456,12 +439,13 @@ async def check_engine(case, rec):
     from vf.engine.detloop import Chaos, pending_tasks, settle
     from vf.engine.harness import make_context, put_persisted
 
-    deterministic_task_sets()
     tree, groups = case["tree"], case["groups"]
     ports = leaves(tree)
     streams = {p: _scattered(groups, [range(n) for n in ns]) for p, ns in case["lens"].items()} | dict(case["residual"])
     exp_list = model(tree, streams)
     exp = canon(exp_list)
+    # (the deterministic loop orders the sets returned by asyncio.wait by task creation and rotates simultaneously
+    # finished tasks by the schedule, so the order in which CombinatorStep.run visits them is a function of the case)
     chaos = Chaos(case["schedule"])
     ctx = make_context(chaos)
     try:
@@ -571,7 +555,7 @@ async def _drive(tree, events, tokens):
     return got
 
 
-@prop.enumerated("permutations-exhaustive", gen_blocks)
+@prop.enumerated("permutations-exhaustive", gen_blocks, max_shards=8)
 def check_block(case, rec):
     from streamflow.core.workflow import Token
 
